@@ -19,6 +19,14 @@ func relayCfg(id, tier string) relay.Config {
 			c.Sends = []string{"A B erc20 3", "B A native 3", "C B erc20 1", "A B erc20+callok 1"}
 		}
 		return c
+	case "C02":
+		c := relay.Config{Prop: id, Chains: 3, MaxSends: 2, Depth: 9, Attacks: true, AttackSet: "single",
+			Sends:     []string{"A B erc20 3", "B A native 1", "A B erc20+callrevert 1"},
+			RecvForms: []string{"g1"}, AckForms: []string{"g1", "conflict", "early"}}
+		if tier == "thorough" {
+			c.AttackSet, c.Depth = "pairs", 10
+		}
+		return c
 	case "C03":
 		c := relay.Config{Prop: id, Chains: 2, MaxSends: 2, Depth: 12,
 			Sends: []string{"A B erc20 3", "A B native 1", "B A back 1", "A B erc20+callok 1", "A B erc20+callrevert 1", "A B erc20+calleoa 1", "A B erc20+hookfail 1", "A B erc20+agentbad 1"},
@@ -72,6 +80,7 @@ func registerRelay(id string, rule string, assume []string, minClasses int) {
 
 func init() {
 	assume := []string{"tendermint light client and IAVL proofs are the real ones; trusting period never reached within the horizon", "heights/times/app hashes are dropped from the canonical key (futures depend on them only through provability of pending artefacts)", "system contracts are exercised as byte code, not analysed"}
+	registerRelay("C02", "explicit-state BFS over three real chains; in every reachable state that has a currently valid receive or acknowledgement message, every single mutation (thorough: every pair) of packet fields, ack fields, proof bytes, proven key, proof height, stated height and signer is delivered to a fork of that state; oracle = ground truth from the counterparty world: accepted => the source store at proofHeight-1 holds sha256(canonical packet) under exactly that triple and the consensus root equals the source app hash (acks: local commitment matches and the counterparty stores sha256(ack bytes)); rejected => store dumps unchanged", assume, 8)
 	registerRelay("C03", "explicit-state BFS over two real chains: sends of ERC-20 / native / returning bound tokens with call data that succeeds, reverts, targets an EOA, fails in the post-transaction hook, or nests a failing cross-chain send; relays and acks in all orders; after every state the reference ledger of transfers (sent -> executed ok|failed -> acked|refunded) is compared with outTokens, endpoint escrow, bindings.amount and bound-token supply; error acks must leave no EVM/bank effect outside the packet contract; refunds must equal the amount exactly once", assume, 6)
 	registerRelay("C04", "explicit-state BFS on chain A with clients for B and C: valid and failing sends (unknown destination, amount above balance, direct packet.sendPacket by a user), several destinations, sends triggered from inside a received packet (agent contract), interleaved with receives; after every tx: keeper counter = contract counter = ledger, every new commitment is numbered next, equals sha256 of the emitted bytes and has a matching event; failed sends change nothing", assume, 5)
 	registerRelay("C05", "explicit-state BFS over two real chains with duplicated, conflicting, early and repeated acknowledgements and packets whose execution fails; every tx: acks/ keys never change or disappear, an accepted receive writes exactly one ack = sha256(announced bytes), a commitment disappears only in an accepted ack whose packet hashes to it and whose ack bytes the counterparty really stores (ground truth from the counterparty's store), ackStatus 0->1|2 once, relayer fee once, refund once", assume, 6)
